@@ -26,6 +26,7 @@ fn setup<'a>(state: &'a DepthCell, remote: PortIdentity) -> (RPort<'a>, PortCfg,
 // @tier quick
 // @variant lists2
 // @timeout 1800
+// @mem 14
 // @functions Port::parse_and_filter, is_compatible, Message::deserialize, Header::deserialize_header
 // @bounds 64 symbolic octets (every message type nibble, flags, lengths), symbolic buffer length 0..=64; arbitrary instance domain / sdoId; arbitrary port state
 // @assume frames longer than 64 octets differ only by more iterations of the TLV loop (decided separately under C04 up to 76 octets)
@@ -82,10 +83,11 @@ fn announce_message<'a>(a: &AnnounceMessage, suffix: TlvSet<'a>) -> Message<'a> 
 // @functions Port::handle_announce, Bmca::register_announce_message, AcceptableMasterList::is_acceptable
 // @bounds one step from an arbitrary port state; fully symbolic Announce whose sender is outside the port's acceptable master list (two symbolic entries) or is the port's own port identity
 // @assume Inv: the current parent of a slave port is an acceptable master and not the own port (it was registered through this gate)
-// @assume PortConfig::announce_duration / core::mem::swap stubs as in c12_announce_receipt_timer
+// @assume Interval::as_core_duration / Duration::mul_f64 / core::mem::swap stubs as in c12_announce_receipt_timer
 #[kani::proof]
 #[kani::unwind(9)]
-#[kani::stub(crate::config::PortConfig::announce_duration, crate::verif_root::stubs::announce_duration_contract)]
+#[kani::stub(crate::time::Interval::as_core_duration, crate::verif_root::stubs::as_core_duration_int)]
+#[kani::stub(core::time::Duration::mul_f64, crate::verif_root::stubs::mul_f64_contract)]
 #[kani::stub(core::mem::swap, super::common::swap_stub)]
 fn c07_announce_rejected() {
     let state = any_state(0);
@@ -116,6 +118,7 @@ fn c07_announce_rejected() {
 // @tier quick
 // @variant lists2
 // @timeout 1500
+// @mem 14
 // @functions Port::handle_sync, Port::handle_follow_up, Port::handle_delay_resp
 // @bounds a port in Faulty / Listening / Master / Passive with arbitrary small state; fully symbolic Sync, Follow_Up and Delay_Resp (any source), arbitrary receive time
 #[kani::proof]
@@ -148,7 +151,7 @@ struct AnnDrain {
 }
 
 fn drain_announce(mut it: PortActionIterator<'_>, sender: PortIdentity) -> AnnDrain {
-    let mut r = AnnDrain { n: 0, reset_receipt: 0, dur: core::time::Duration::ZERO, fwd: 0, fwd_type: [0; 3], fwd_len: [0; 3], fwd_sender_ok: true, other: 0 };
+    let mut r = AnnDrain { n: 0, reset_receipt: 0, dur: core::time::Duration::from_secs(0), fwd: 0, fwd_type: [0; 3], fwd_len: [0; 3], fwd_sender_ok: true, other: 0 };
     let mut k = 0;
     while k < 5 {
         match it.next() {
@@ -172,25 +175,15 @@ fn drain_announce(mut it: PortActionIterator<'_>, sender: PortIdentity) -> AnnDr
     r
 }
 
-// @harness c11_handle_announce
-// @props C11 C15 C12 C07 C03 C17
-// @tier quick
-// @variant lists2
-// @stubbing yes
-// @timeout 2400
-// @mem 16
-// @functions Port::handle_announce, Bmca::register_announce_message, ForeignMasterList::register_announce_message, ForeignMasterList::is_announce_message_qualified, AnnounceMessage::time_properties, PortActionIterator::next, PortActionIterator::with_forward_tlvs, TlvSetIterator::next, TlvType::announce_propagate
-// @bounds one step from an arbitrary port state with an empty foreign-master list; fully symbolic Announce (stepsRemoved <= 65534, see known finding D3 for 65535) from the parent or anyone else; TLV suffix = any well-formed TLV set of <= 12 octets (<= 2 TLVs, any types); path trace off (the path-trace receive path is c15_path_trace_*)
-// @assume PortConfig::announce_duration / core::mem::swap stubs as in c12_announce_receipt_timer
-#[kani::proof]
-#[kani::unwind(14)]
-#[kani::stub(crate::config::PortConfig::announce_duration, crate::verif_root::stubs::announce_duration_contract)]
-#[kani::stub(core::mem::swap, super::common::swap_stub)]
-fn c11_handle_announce() {
+fn announce_step(with_suffix: bool) {
     let state = any_state(0);
     state.poke().path_trace_ds.enable = false;
     let remote = any_port_identity();
-    let (mut port, cfg, code) = setup(&state, remote);
+    let (mut port, cfg, code) = if with_suffix {
+        // forwarding does not depend on the port state: keep it concrete (Listening, default config) so the symbolic TLV suffix stays affordable
+        let cfg = PortCfg::plain();
+        (mk_running(&state, cfg, RecClock::quiet(), any_filter_cfg(), PortState::Listening), cfg, ST_LISTENING)
+    } else { setup(&state, remote) };
     if code == ST_SLAVE {
         // Inv: a slave's parent data set names its remote master
         state.poke().parent_ds.parent_port_identity = remote;
@@ -199,7 +192,7 @@ fn c11_handle_announce() {
     kani::assume(a.steps_removed < 65535);
     let src = a.header.source_port_identity;
     let sbuf: [u8; 12] = kani::any();
-    let slen: usize = kani::any();
+    let slen: usize = if with_suffix { kani::any() } else { 0 };
     kani::assume(slen <= 12);
     let suffix = match TlvSet::deserialize(&sbuf[..slen]) {
         Ok(s) => s,
@@ -278,6 +271,40 @@ fn c11_handle_announce() {
     kani::cover!(!accepted, "rejected Announce");
     core::mem::forget(port);
 }
+
+// @harness c11_handle_announce
+// @props C11 C12 C07 C03 C17
+// @tier quick
+// @variant lists2
+// @stubbing yes
+// @timeout 2400
+// @mem 16
+// @functions Port::handle_announce, Bmca::register_announce_message, ForeignMasterList::register_announce_message, ForeignMasterList::is_announce_message_qualified, AnnounceMessage::time_properties
+// @bounds one step from an arbitrary port state with an empty foreign-master list; fully symbolic Announce (stepsRemoved <= 65534, see D3 for 65535) from the parent or anyone else, no TLV suffix; path trace off (the path-trace receive path is c15_path_trace_*)
+// @assume Interval::as_core_duration / Duration::mul_f64 / core::mem::swap stubs as in c12_announce_receipt_timer
+#[kani::proof]
+#[kani::unwind(14)]
+#[kani::stub(crate::time::Interval::as_core_duration, crate::verif_root::stubs::as_core_duration_int)]
+#[kani::stub(core::time::Duration::mul_f64, crate::verif_root::stubs::mul_f64_contract)]
+#[kani::stub(core::mem::swap, super::common::swap_stub)]
+fn c11_handle_announce() { announce_step(false) }
+
+// @harness c15_receive_forwarding
+// @props C15 C03 C17
+// @tier quick
+// @variant lists2
+// @stubbing yes
+// @timeout 2400
+// @mem 16
+// @functions Port::handle_announce, PortActionIterator::next, PortActionIterator::with_forward_tlvs, TlvSetIterator::next, TlvType::announce_propagate, TlvSet::deserialize
+// @bounds listening port (forwarding is state independent), fully symbolic Announce from any sender; TLV suffix = any well-formed TLV set of <= 12 octets (<= 2 TLVs + one empty, all 2^16 types)
+// @assume stubs as in c11_handle_announce
+#[kani::proof]
+#[kani::unwind(14)]
+#[kani::stub(crate::time::Interval::as_core_duration, crate::verif_root::stubs::as_core_duration_int)]
+#[kani::stub(core::time::Duration::mul_f64, crate::verif_root::stubs::mul_f64_contract)]
+#[kani::stub(core::mem::swap, super::common::swap_stub)]
+fn c15_receive_forwarding() { announce_step(true) }
 
 fn before_default(s: &Snapshot) -> crate::datastructures::datasets::InternalDefaultDS {
     snapshot_default(s)
